@@ -107,6 +107,8 @@ Record fmt := mkFmt {
   f_tcond : list (fld * Z);        (* all of these fields equal these values *)
   f_twrite : list (ity * Z);       (* write_terminal_instr *)
   f_tguard : bool;                 (* write_instr refuses instructions that satisfy f_tcond *)
+  f_fixed_wdiag : bool;            (* ArgsFixed: the writer reports a wrong argument size as a diagnostic (else assert!) *)
+  f_fixed_rdiag : bool;            (* ArgsFixed: the reader reports a wrong argument size as a diagnostic (else assert!) *)
   f_default : instr                (* RawInstr::DEFAULTS *)
 }.
 
@@ -148,7 +150,7 @@ Definition write_instr (f : fmt) (i : instr) : outcome (list Z) :=
   if f_tguard f && looks_terminal f i then Err E_TERMLIKE else
   do h <- write_fields (f_hdr f) i (f_write f);
   match f_args f with
-  | ArgsFixed n => if alen i =? n then Ok (h ++ i_args i) else Panic P_EXPECT
+  | ArgsFixed n => if alen i =? n then Ok (h ++ i_args i) else if f_fixed_wdiag f then Err E_RANGE else Panic P_EXPECT
   | _ => Ok (h ++ i_args i)
   end.
 
@@ -224,7 +226,7 @@ Definition args_len (f : fmt) (vals : list (fld * Z)) : outcome Z :=
       end
   | ArgsFixed n =>
       match lookup FArgsLen vals with
-      | Some a => if a =? n then Ok n else Panic P_EXPECT
+      | Some a => if a =? n then Ok n else if f_fixed_rdiag f then Err E_BADSIZE else Panic P_EXPECT
       | None => Panic P_UNREC
       end
   end.
@@ -314,11 +316,18 @@ Definition unstored_default (f : fmt) (i : instr) : bool :=
 
 Definition fields_fit (f : fmt) (i : instr) : bool := forallb2 (pair_fits (f_hdr f) i) (f_write f) (f_read f).
 
+(* the writer's own range checks accept the instruction *)
+Definition checks_pass (f : fmt) (i : instr) : bool :=
+  forallb (fun w => match w_cast w with
+                    | Checked => in_rangeb (w_disk w) (get (f_hdr f) i (w_fld w))
+                    | AsCast => true
+                    end) (f_write f).
+
 (* "the instruction fits the format": every stored field survives, nothing unstored is set, and the
    instruction is not mistaken for the end marker *)
 Definition fitsb (f : fmt) (i : instr) : bool :=
   fields_fit f i && unstored_default f i && negb (is_tterminal f && looks_terminal f i) &&
-  (alen i <=? ISIZE_MAX).     (* a Vec is never longer than isize::MAX *)
+  (alen i <=? ISIZE_MAX) && checks_pass f i.     (* a Vec is never longer than isize::MAX *)
 
 (* every value the source could put in a field is in the Rust type of that field *)
 Definition wf_instr (f : fmt) (i : instr) : bool :=
@@ -331,13 +340,7 @@ Definition kind_of (f : fmt) (i : instr) : rkind :=
 (* --- conditions on a format table ------------------------------------------------------- *)
 Definition pair_compat (f : fmt) (w : wfield) (r : rfield) : bool :=
   Nat.eqb (ity_bytes (w_disk w)) (ity_bytes (r_disk r)) &&
-  (is_const (r_fld r) || is_const (w_fld w) || fld_eqb (w_fld w) (r_fld r)) &&
-  (* a checked write and its read agree on the type, and reading does not narrow *)
-  match w_cast w with
-  | Checked => ity_eqb (w_disk w) (r_disk r) && sub_range (r_disk r) (r_mem r) &&
-               fld_eqb (w_fld w) (r_fld r) && negb (is_const (w_fld w))
-  | AsCast => true
-  end.
+  (is_const (r_fld r) || is_const (w_fld w) || fld_eqb (w_fld w) (r_fld r)).
 
 Fixpoint existsb2 {A B} (p : A -> B -> bool) (l1 : list A) (l2 : list B) : bool :=
   match l1, l2 with
@@ -387,15 +390,19 @@ Definition fmt_ok (f : fmt) : bool :=
   (negb (f_tguard f) || is_tterminal f) &&
   term_reads_ok f.
 
+(* every value of both a and b is a value of both c and d *)
+Definition meet_sub (a b c d : ity) : bool :=
+  (Z.max (ity_lo c) (ity_lo d) <=? Z.max (ity_lo a) (ity_lo b)) && (Z.min (ity_hi a) (ity_hi b) <=? Z.min (ity_hi c) (ity_hi d)).
+
 (* a field whose write cannot change the value without a diagnostic: the value read is dropped, or the
-   same field is read back and either (A) the write is range-checked (or cannot narrow), the read uses
-   the same on-disk type and does not narrow; or (B) nothing narrows: the field type is unchanged and
-   the on-disk type is at least as wide *)
+   same field is read back and either (A) the write is range-checked (or cannot narrow) and every value
+   that passes is a value of the type it is read as and of the field it is stored in; or (B) nothing
+   narrows: the field type is unchanged and the on-disk type is at least as wide *)
 Definition pair_checked (f : fmt) (w : wfield) (r : rfield) : bool :=
   is_const (r_fld r) ||
   (fld_eqb (w_fld w) (r_fld r) &&
    ((match w_cast w with Checked => true | AsCast => sub_range (w_mem w) (w_disk w) end &&
-     ity_eqb (w_disk w) (r_disk r) && sub_range (r_disk r) (r_mem r))
+     meet_sub (w_mem w) (w_disk w) (r_disk r) (r_mem r))
     || (match w_cast w with Checked => false | AsCast => true end &&
         ity_eqb (w_mem w) (r_mem r) && (ity_bits (r_mem r) <=? ity_bits (r_disk r))))) ||
   (* the literal argument size of a format whose writer asserts that size *)
@@ -404,8 +411,16 @@ Definition pair_checked (f : fmt) (w : wfield) (r : rfield) : bool :=
   | _, _, _ => false
   end.
 
+(* the end-marker test asks for an instruction size that no instruction has *)
+Definition term_unreachable (f : fmt) : bool :=
+  existsb (fun p => match fst p with
+                    | FInstrSize => snd p <? f_hdr f
+                    | FArgsLen => snd p <? 0
+                    | _ => false
+                    end) (f_tcond f).
+
 Definition all_checked (f : fmt) : bool :=
-  forallb2 (pair_checked f) (f_write f) (f_read f) && (negb (is_tterminal f) || f_tguard f).
+  forallb2 (pair_checked f) (f_write f) (f_read f) && (negb (is_tterminal f) || f_tguard f || term_unreachable f).
 
 (* the header fields that are not checked (for the report), and whether the end marker can be forged *)
 Fixpoint unchecked_fields (f : fmt) (ws : list wfield) (rs : list rfield) : list fld :=
@@ -413,7 +428,7 @@ Fixpoint unchecked_fields (f : fmt) (ws : list wfield) (rs : list rfield) : list
   | w :: t1, r :: t2 => if pair_checked f w r then unchecked_fields f t1 t2 else r_fld r :: unchecked_fields f t1 t2
   | _, _ => []
   end.
-Definition terminal_forgeable (f : fmt) : bool := is_tterminal f && negb (f_tguard f).
+Definition terminal_forgeable (f : fmt) : bool := is_tterminal f && negb (f_tguard f) && negb (term_unreachable f).
 
 Definition is_ok {A} (o : outcome A) : bool := match o with Ok _ => true | _ => false end.
 
